@@ -7,7 +7,7 @@ wt=$(mktemp -d /tmp/pfverif_mut.XXXXXX); rmdir "$wt"
 git -C /repo worktree add -q --detach "$wt" HEAD || exit 2
 trap 'git -C /repo worktree remove --force "$wt" >/dev/null 2>&1; rm -rf "$out"' EXIT
 out=$(mktemp -d /tmp/pfverif_mutout.XXXXXX)
-if ! git -C "$wt" apply "$dir/patch.diff"; then echo "PATCH DOES NOT APPLY"; exit 2; fi
+if ! git -C "$wt" apply "$dir/patch.diff" 2>/dev/null && ! git -C "$wt" apply --3way "$dir/patch.diff" 2>/dev/null; then echo "PATCH DOES NOT APPLY"; exit 2; fi
 if [ -f "$dir/demo.py" ]; then
   (cd "$wt" && PYTHONPATH=/verif/harness/shim:"$wt" timeout 300 /venv/bin/python "$dir/demo.py" >/dev/null 2>&1); echo "demo exit with change: $?"
 fi
